@@ -25,6 +25,7 @@ func init() {
 		Assumptions: []string{"integer conversions are transparent for form comparison (frame numbers fit the narrower type)",
 			"the bootloader's map is sorted and non-overlapping (quantifier of C01)"},
 		Controls: []Control{
+			{Name: "word scan starts at a remembered position", File: "kernel/mm/pmm/bitmap_allocator.go", Old: "\t\tfor blockIndex, block := range alloc.pools[poolIndex].freeBitmap {\n", New: "\t\tfor blockIndex := int(alloc.reservedPages >> 6); blockIndex < len(alloc.pools[poolIndex].freeBitmap); blockIndex++ {\n\t\t\tblock := alloc.pools[poolIndex].freeBitmap[blockIndex]\n", Expect: "C01.R4"},
 			{Name: "delete reserveKernelFrames call", File: "kernel/mm/pmm/bitmap_allocator.go", Old: "\talloc.reserveKernelFrames()\n\talloc.reserveEarlyAllocatorFrames()\n", New: "\talloc.reserveEarlyAllocatorFrames()\n", Expect: "C01.R1"},
 			{Name: "swap rounding in pass 2", File: "kernel/mm/pmm/bitmap_allocator.go",
 				Old: "\t\tregionStartFrame := mm.Frame(((uintptr(region.PhysAddress) + pageSizeMinus1) & ^pageSizeMinus1) >> mm.PageShift)\n\t\tregionEndFrame := mm.Frame((uintptr(region.PhysAddress+region.Length) & ^pageSizeMinus1)>>mm.PageShift) - 1\n\t\tbitmapBytes",
